@@ -19,6 +19,7 @@ import (
 	"errors"
 	"fmt"
 	"os"
+	"runtime"
 	"strings"
 	"sync"
 	"sync/atomic"
@@ -106,49 +107,51 @@ func ensureConn() bool {
 	return true
 }
 
-// panic bookkeeping: framework panic-level log lines that appeared during a case. The capturing
-// logger keeps the text of the first 200 lines only, so the counters decide and the text is a bonus.
-type panicMark struct {
-	a, b, exp int64
-	la, lb    int
+// panic bookkeeping: framework panic-level log lines that appeared during a case, captured by an
+// own logger (the kit's capturing logger keeps the first 200 error/panic lines only)
+type panicLog struct {
+	mu    sync.Mutex
+	lines []string
 }
 
-var expectedPanics atomic.Int64 // panics the harness asked for (cPanic)
-
-func markPanics() panicMark {
-	m := panicMark{a: nodeA.Cap.Panics.Load(), la: len(nodeA.Cap.PanicLines()), exp: expectedPanics.Load()}
-	if nodeB != nil {
-		m.b = nodeB.Cap.Panics.Load()
-		m.lb = len(nodeB.Cap.PanicLines())
+func (l *panicLog) Log(m gen.MessageLog) {
+	if m.Level != gen.LogLevelPanic {
+		return
 	}
-	return m
+	l.mu.Lock()
+	l.lines = append(l.lines, fmt.Sprintf(m.Format, m.Args...))
+	l.mu.Unlock()
 }
-
-func newPanics(m panicMark) []string {
-	n := nodeA.Cap.Panics.Load() - m.a
-	var out []string
-	if la := nodeA.Cap.PanicLines(); len(la) > m.la {
-		out = append(out, la[m.la:]...)
-	}
-	if nodeB != nil {
-		n += nodeB.Cap.Panics.Load() - m.b
-		if lb := nodeB.Cap.PanicLines(); len(lb) > m.lb {
-			out = append(out, lb[m.lb:]...)
-		}
-	}
-	n -= expectedPanics.Load() - m.exp
-	if n <= 0 {
+func (l *panicLog) Terminate() {}
+func (l *panicLog) count() int {
+	l.mu.Lock()
+	defer l.mu.Unlock()
+	return len(l.lines)
+}
+func (l *panicLog) since(n int) []string {
+	l.mu.Lock()
+	defer l.mu.Unlock()
+	if n >= len(l.lines) {
 		return nil
 	}
+	return append([]string(nil), l.lines[n:]...)
+}
+
+var panicsA, panicsB = &panicLog{}, &panicLog{}
+
+type panicMark struct{ a, b int }
+
+var expectedPanics atomic.Int64 // kept for symmetry with the requested-panic text filter
+
+func markPanics() panicMark { return panicMark{a: panicsA.count(), b: panicsB.count()} }
+
+func newPanics(m panicMark) []string {
 	var res []string
-	for _, l := range out {
+	for _, l := range append(panicsA.since(m.a), panicsB.since(m.b)...) {
 		if strings.Contains(l, "c18: requested panic") {
 			continue
 		}
 		res = append(res, l)
-	}
-	if len(res) == 0 {
-		res = append(res, fmt.Sprintf("%d panic-level framework log line(s) (text beyond the logger's capture limit)", n))
 	}
 	return res
 }
@@ -166,7 +169,7 @@ func checkPanics(res *result, m panicMark) []string {
 			res.violate("framework-panic-in-event-path", "framework panic during the case: %s", trim(l, 300))
 		}
 	}
-	if len(lines) > 0 && nodeB != nil && nodeB.Cap.Panics.Load() > m.b {
+	if panicsB.count() > m.b {
 		connSuspect.Store(true)
 	}
 	return lines
@@ -269,6 +272,35 @@ func anyRemote(subs []*actor) bool {
 	return false
 }
 
+// netQuiescent is a structural witness that every frame either node has handed to the connection so far
+// has been read AND completely handled by the peer: the peers' in-counters equal the out-counters
+// (read in an order that makes equality hold at the instant of the snapshot: counters are monotone and
+// in <= out), and in a stop-the-world goroutine snapshot no receive-queue handler goroutine exists and
+// every connection reader is blocked in a socket read (not between "frame read" and "handler started").
+func netQuiescent() bool {
+	ra, e1 := nodeA.Network().Node(nodeB.Name())
+	rb, e2 := nodeB.Network().Node(nodeA.Name())
+	if e1 != nil || e2 != nil {
+		return false
+	}
+	inB, inA := rb.Info().MessagesIn, ra.Info().MessagesIn
+	buf := make([]byte, 4<<20)
+	n := runtime.Stack(buf, true)
+	outA, outB := ra.Info().MessagesOut, rb.Info().MessagesOut
+	if inB != outA || inA != outB || n == len(buf) {
+		return false
+	}
+	for _, g := range strings.Split(string(buf[:n]), "\n\n") {
+		if strings.Contains(g, "handleRecvQueue") {
+			return false
+		}
+		if strings.Contains(g, "(*connection).serve(") && !strings.Contains(g, "internal/poll.(*FD).Read") {
+			return false
+		}
+	}
+	return true
+}
+
 // expectSignals: after the event ended, every live subscription owes exactly one exit (link) / down (monitor)
 type liveSub struct {
 	a       *actor
@@ -329,7 +361,11 @@ func checkSignals(res *result, c *evCtx, ls []liveSub) (events int64) {
 				continue
 			}
 			has, ok := l.a.hasRelation(c.ev, l.r.Link)
-			if l.ordered {
+			quiet := !l.ordered && hk.WaitUntil(2*time.Second, func() bool { return netQuiescent() && l.a.idle() && len(l.a.signals(c.ev)) == 0 })
+			if quiet {
+				hk.Stat("remote_missing_notification_decided_by_network_quiescence", 1)
+				res.violate("missing-"+kind+"-remote", "%s: remote subscription to %s: the event ended, every frame the owner node sent has been read and handled by the subscriber's node (counters equal, no receive handler alive, readers blocked in read), subscriber idle: no %s notification (relation still present on its node: %v)", l.a.label, c.ev, kind, has)
+			} else if l.ordered {
 				res.violate("missing-"+kind+"-remote", "%s: remote subscription to %s returned nil after the event had ended; subscriber idle, no %s notification", l.a.label, c.ev, kind)
 			} else if ok && !has {
 				res.violate("missing-"+kind+"-remote", "%s: remote subscription to %s: relation already removed on the subscriber's node, subscriber idle, no %s notification", l.a.label, c.ev, kind)
@@ -371,12 +407,16 @@ func main() {
 	}
 	reg := hk.FreePort()
 	var err error
-	nodeA, err = hk.StartNode(hk.NodeCfg{Name: hk.UniqueName("c18a"), Network: true, RegPort: reg, PoolSize: 1})
+	nodeA, err = hk.StartNode(hk.NodeCfg{Name: hk.UniqueName("c18a"), Network: true, RegPort: reg, PoolSize: 1, Tweak: func(o *gen.NodeOptions) {
+		o.Log.Loggers = append(o.Log.Loggers[:1:1], gen.Logger{Name: "c18panics", Logger: panicsA})
+	}})
 	if err != nil {
 		fmt.Fprintln(os.Stderr, "start node A:", err)
 		os.Exit(3)
 	}
-	nodeB, err = hk.StartNode(hk.NodeCfg{Name: hk.UniqueName("c18b"), Network: true, RegPort: reg, PoolSize: 1})
+	nodeB, err = hk.StartNode(hk.NodeCfg{Name: hk.UniqueName("c18b"), Network: true, RegPort: reg, PoolSize: 1, Tweak: func(o *gen.NodeOptions) {
+		o.Log.Loggers = append(o.Log.Loggers[:1:1], gen.Logger{Name: "c18panics", Logger: panicsB})
+	}})
 	if err != nil {
 		fmt.Fprintln(os.Stderr, "start node B:", err)
 		os.Exit(3)
@@ -434,12 +474,12 @@ func main() {
 	}
 	runDual()
 	// sequential model-based histories
-	ns := hk.Pick(80, 1000)
+	ns := hk.Pick(80, 1500)
 	for k := 0; k < ns; k++ {
 		runSeq(k)
 	}
 	// concurrent churn
-	nc := hk.Pick(120, 2000)
+	nc := hk.Pick(120, 3000)
 	for k := 0; k < nc; k++ {
 		runConc(k)
 	}
@@ -453,11 +493,12 @@ func main() {
 	h, d := hk.PointStats()
 	hk.Note("hook_hits", h)
 	hk.Note("hook_delays", d)
-	if l := nodeA.Cap.PanicLines(); len(l) > 0 {
-		if len(l) > 10 {
-			l = l[:10]
+	if l := panicsA.since(0); len(l) > 0 {
+		hk.Stat("framework_panic_log_lines_nodeA", int64(len(l)))
+		if len(l) > 6 {
+			l = l[:6]
 		}
-		hk.Note("framework_panic_log_lines_nodeA", l)
+		hk.Note("framework_panic_log_lines_nodeA_first", l)
 	}
 	os.Stdout.Sync()
 	os.Exit(0)
@@ -1463,7 +1504,9 @@ func runConc(k int) {
 	}
 	if nPub > 1 && n > 0 && len(res.viol) > 0 {
 		switch {
-		case strings.HasPrefix(res.sig, "buffer-"), strings.HasPrefix(res.sig, "subscribe-window-loss"), res.sig == "subscribe-vs-publish-buffer-race", res.sig == "framework-panic-in-event-path":
+		case strings.HasSuffix(res.sig, "-remote"):
+			// the remote subscribe window is independent of the number of publishers
+		case strings.HasPrefix(res.sig, "buffer-"), res.sig == "subscribe-window-loss", res.sig == "subscribe-vs-publish-buffer-race", res.sig == "framework-panic-in-event-path":
 			res.viol = append([]string{fmt.Sprintf("[concurrent-publishers-corrupt-buffer] %d token holders published concurrently into a Buffer=%d event (first symptom: %s)", nPub, n, res.sig)}, res.viol...)
 			res.sig = "concurrent-publishers-corrupt-buffer"
 		}
